@@ -351,6 +351,36 @@ func (l *lab) mutants(k labKind, base []byte) []labMutant {
 			ms = append(ms, labMutant{"sig.key-relabelled-" + alg + "-" + sigv, "attacker", out})
 		}
 	}
+	// NOBODY's authority: every payload field that names a required signer is emptied, and the envelope carries
+	// a public key of an algorithm whose handler has no address of its own (btcecsecp) with junk as signature —
+	// a transaction that names the empty address must not be admitted without a signature that verifies
+	{
+		tx := decodeSigned(base)
+		data := string(tx.Data)
+		changed := false
+		for _, sk := range k.Signers {
+			if strings.Contains(data, `"`+sk.Addr.String()+`"`) {
+				data = strings.ReplaceAll(data, `"`+sk.Addr.String()+`"`, `""`)
+				changed = true
+			}
+		}
+		if changed {
+			priv, err := keys.GetPrivateKeyFromBytes(bytes.Repeat([]byte{0x42}, 32), keys.BTCECSECP)
+			must(err)
+			ph, err := priv.GetHandler()
+			must(err)
+			raw := tx.RawTx
+			raw.Data = []byte(data)
+			raw.Memo = raw.Memo + "e"
+			for _, nsig := range []int{len(tx.Signatures), 1} {
+				st := action.SignedTx{RawTx: raw}
+				for i := 0; i < nsig; i++ {
+					st.Signatures = append(st.Signatures, action.Signature{Signer: ph.PubKey(), Signed: bytes.Repeat([]byte{0x5a}, 64)})
+				}
+				ms = append(ms, labMutant{fmt.Sprintf("payload.signers-emptied+btcec-junk-%d", nsig), "attacker", encodeSigned(&st)})
+			}
+		}
+	}
 	// the same content signed (correctly) by each OTHER account the payload names (recipient,
 	// beneficiary, validator, ...): authority must come from the spender, not from whoever is named
 	{
